@@ -1553,10 +1553,13 @@ theorem safe_of_noExpire (cfg : Cfg) : ∀ (ops : List Op) (live : List Bytes) (
 
 /-! ### the executable hypotheses and the oracle -/
 
+theorem cfgOK_scope (cfg : Cfg) (h : cfgOK cfg = true) : cfgScope cfg = true := by
+  simp only [cfgOK, Bool.and_eq_true] at h; exact h.1
+
 theorem cfgOK_wf (cfg : Cfg) (h : cfgOK cfg = true) : CfgWF cfg := by
-  simp only [cfgOK, Bool.and_eq_true, decide_eq_true_eq, List.all_eq_true, Bool.or_eq_true,
+  simp only [cfgOK, cfgScope, Bool.and_eq_true, decide_eq_true_eq, List.all_eq_true, Bool.or_eq_true,
     Bool.not_eq_true'] at h
-  obtain ⟨⟨⟨h1, h2⟩, h3⟩, h4⟩ := h
+  obtain ⟨⟨⟨h1, h2⟩, h4⟩, h3⟩ := h
   refine ⟨h1, h2, h3, ?_⟩
   intro r hr he
   rcases h4 r hr with h | h
@@ -1566,9 +1569,9 @@ theorem cfgOK_wf (cfg : Cfg) (h : cfgOK cfg = true) : CfgWF cfg := by
 
 theorem cfgOK_shares (cfg : Cfg) (h : cfgOK cfg = true) (r : Rule) (hr : r ∈ cfg.rules)
     (he : r.distr.isEnabled = true) : (∀ x ∈ r.distr.limits, 0 ≤ x) ∧ 0 ≤ r.distr.defLimit := by
-  simp only [cfgOK, Bool.and_eq_true, decide_eq_true_eq, List.all_eq_true, Bool.or_eq_true,
+  simp only [cfgOK, cfgScope, Bool.and_eq_true, decide_eq_true_eq, List.all_eq_true, Bool.or_eq_true,
     Bool.not_eq_true'] at h
-  rcases h.2 r hr with h4 | h4
+  rcases h.1.2 r hr with h4 | h4
   · rw [he] at h4; cases h4
   · simp only [distrOK, Bool.and_eq_true, List.all_eq_true, decide_eq_true_eq] at h4
     exact ⟨h4.1.2, h4.2⟩
@@ -1589,7 +1592,7 @@ theorem sumF_zero (n : Nat) : sumF n (fun _ => 0) = 0 := by
   | zero => rfl
   | succ n ih => simp [sumF, ih]
 
-theorem reps_subset (cfg : Cfg) : ∀ (obs : List (Ev × Bool)) (seen : List (Option Bytes × Int)),
+theorem reps_subset (cfg : Cfg) : ∀ (obs : List (Ev × Bool)) (seen : List (Option Nat × Option Bytes × Int)),
     ∀ x ∈ reps cfg obs seen, x ∈ obs := by
   intro obs
   induction obs with
@@ -1653,7 +1656,7 @@ theorem abs_verdict (cfg : Cfg) (hc : cfgOK cfg = true) (es : List Ev)
     | nil => rfl
     | cons a t ih => simp only [absObs, List.map_cons, ih]
   unfold verdict
-  rw [hmap, hc, hn, hsz]
+  rw [hmap, cfgOK_scope cfg hc, hn, hsz]
   have hsafe : safeHolds cfg (absObs cfg Cnt.zero es) = true := by
     unfold safeHolds
     rw [Bool.and_eq_true, List.all_eq_true, List.all_eq_true]
